@@ -119,9 +119,12 @@ def eval_case(case):
                 r = P._calculate_ranges(dc, start, stop)
                 blocks.append([int(r[0]), int(r[1])])
                 allr.append([[int(x[0]), int(x[1])] for x in dc.ranges])
-            bad = partition.check_blocks(blocks, start, stop)
+            huge = (stop - start) > 10 ** 6
+            bad = partition.check_blocks_arith(blocks, start, stop) if huge \
+                else partition.check_blocks(blocks, start, stop)
             for b in bad:
-                viol.append(("calc_ranges/" + b + ("/start!=0" if start != 0 else "/start=0"),
+                viol.append(("calc_ranges/" + b + ("/huge-range" if huge else "") +
+                             ("/start!=0" if start != 0 else "/start=0"),
                              "_calculate_ranges(size=%d,start=%d,stop=%d) -> %s: %s"
                              % (size, start, stop, blocks, b), {"blocks": blocks}))
             if any(a != blocks for a in allr):
@@ -488,6 +491,17 @@ def cases(tier):
         for start in range(-3, 6):
             for stop in range(start, start + 2 * size + 4):
                 cs.append({"kind": "range", "size": size, "start": start, "stop": stop})
+    for size in range(1, smax + 1):
+        # reversed (empty) ranges handed to the public iterator: nobody gets an index
+        for start in (0, 5, -2):
+            for back in range(1, size + 3):
+                cs.append({"kind": "range", "size": size, "start": start, "stop": start - back})
+        # ranges longer than 2**53 (float arithmetic is not exact any more)
+        for start in (0, 7):
+            for extra in range(0, size + 1):
+                for base in (10 ** 17, 2 ** 53 + 1, 3 * 10 ** 18):
+                    cs.append({"kind": "calc", "size": size, "start": start,
+                               "stop": start + base + extra})
     for kind in ("list", "array"):
         for ri in (False, True):
             for size in range(1, smax + 1):
@@ -523,7 +537,7 @@ def cases(tier):
     for signs in ("positive", "alternating"):
         for mag in ("large", "tiny"):
             for nsites in (1, 2, 3):
-                for ncomp in ((2, 3, 4) if tier == "quick" else (2, 3, 4, 5, 7)):
+                for ncomp in ((1, 2, 3, 4) if tier == "quick" else (1, 2, 3, 4, 5, 7)):
                     for size in range(2, (4 if tier == "quick" else 6) + 1):
                         cs.append({"kind": "reduce", "target": "ssrates", "nsites": nsites,
                                    "ncomp": ncomp, "signs": signs, "mag": mag, "size": size,
